@@ -808,7 +808,11 @@ func c11Run(line string, out *hx.Out) (string, bool) {
 			c, types, supported = codec.FormCodec{}, c11FormTypes, c11FormSupported
 		}
 		ti := atoi("ty")
-		if ti < 0 || ti >= len(types) {
+		if kind == "form-rt" && ti >= c11FormXBase && ti < c11FormXBase+len(c11FormTypesX) {
+			// extension bank (c11x.go): every type of it is in the supported domain
+			types, supported = append(make([]reflect.Type, c11FormXBase), c11FormTypesX...), c11FormXBase+len(c11FormTypesX)
+		}
+		if ti < 0 || ti >= len(types) || types[ti] == nil {
 			return "bad-case", false
 		}
 		t := types[ti]
@@ -953,10 +957,15 @@ func c11Run(line string, out *hx.Out) (string, bool) {
 
 	case "form-dec":
 		ti := atoi("ty")
-		if ti < 0 || ti >= len(c11FormTypes) {
+		var t reflect.Type
+		switch {
+		case ti >= c11FormXBase && ti < c11FormXBase+len(c11FormTypesX):
+			t = c11FormTypesX[ti-c11FormXBase]
+		case ti >= 0 && ti < len(c11FormTypes):
+			t = c11FormTypes[ti]
+		default:
 			return "bad-case", false
 		}
-		t := c11FormTypes[ti]
 		data := hx.UnHex(f["data"])
 		c := codec.FormCodec{}
 		var obs string
